@@ -1,7 +1,10 @@
 package sim
 
 import (
+	"crypto/ecdsa"
+	"crypto/sha256"
 	"encoding/base64"
+	"encoding/hex"
 	"regexp"
 	"fmt"
 	"math/big"
@@ -20,6 +23,8 @@ import (
 	saokeeper "github.com/SaoNetwork/sao/x/sao/keeper"
 	saotypes "github.com/SaoNetwork/sao/x/sao/types"
 	sdk "github.com/cosmos/cosmos-sdk/types"
+	ethcrypto "github.com/ethereum/go-ethereum/crypto"
+	uuid "github.com/satori/go.uuid"
 	stakingkeeper "github.com/cosmos/cosmos-sdk/x/staking/keeper"
 	stakingtypes "github.com/cosmos/cosmos-sdk/x/staking/types"
 )
@@ -29,6 +34,7 @@ type Op struct {
 	K        string `json:"k"`
 	Creator  int    `json:"creator,omitempty"`  // account index (0-based) -> resolved to address id in output
 	Provider int    `json:"provider,omitempty"` // account index + 1 (0 = empty)
+	PropProvider int `json:"propProvider,omitempty"` // proposal.Provider when it differs from msg.Provider (account index + 1)
 	Signer   int    `json:"signer,omitempty"`   // account index whose did:key signs the proposal (+1; 0 = unsigned)
 	Tamper   string `json:"tamper,omitempty"`   // field altered after signing
 	// generic numeric args
@@ -409,6 +415,12 @@ func (w *World) Exec(op *Op) (Result, M) {
 		if op.AccountId != "" {
 			accId = op.AccountId
 		}
+		var ethKey *ecdsa.PrivateKey
+		if op.Eth {
+			h := sha256.Sum256([]byte("saoverif-eth-" + acct.Name))
+			ethKey, _ = ethcrypto.ToECDSA(h[:])
+			accId = "eip155:1:" + strings.ToLower(ethcrypto.PubkeyToAddress(ethKey.PublicKey).Hex())
+		}
 		now := uint64(w.Clock().Unix())
 		proofTs := ts
 		message := fmt.Sprintf("I accept binding my account to %s at %d", did, proofTs)
@@ -447,7 +459,17 @@ func (w *World) Exec(op *Op) (Result, M) {
 			sigBz, _ = acct.Priv.Sign(signBytes)
 			signature = "tendermint/PubKeySecp256k1." + base64.StdEncoding.EncodeToString(acct.Priv.PubKey().Bytes()) + "." + base64.StdEncoding.EncodeToString(sigBz)
 		}
+		if op.Eth && op.Tamper != "sig" {
+			hash := ethcrypto.Keccak256([]byte("\u0019Ethereum Signed Message:\n" + fmt.Sprint(len(message)) + message))
+			sg, _ := ethcrypto.Sign(hash, ethKey)
+			sg[64] += 27
+			signature = "0x" + hex.EncodeToString(sg)
+			proofOk = true
+		}
 		accountDid := fmt.Sprintf("did:key:acct%d-of-%s", op.Acct, rootDocId[:8])
+		if op.Eth {
+			accountDid = fmt.Sprintf("did:key:acct%d-of-%s", op.Acct+100, rootDocId[:8])
+		}
 		auth := didtypes.AccountAuth{AccountDid: accountDid, AccountEncryptedSeed: "seed", SidEncryptedAccount: "enc"}
 		calc, _ := didkeeper.CalculateDocId(keysSent, ts)
 		msg := &didtypes.MsgBinding{Creator: creator, AccountId: accId, RootDocId: rootSent, Keys: keysSent, AccountAuth: &auth,
@@ -536,8 +558,12 @@ func (w *World) Exec(op *Op) (Result, M) {
 		if op.PayDidRaw != "" {
 			pay = op.PayDidRaw
 		}
+		pp := op.Provider
+		if op.PropProvider != 0 {
+			pp = op.PropProvider
+		}
 		p := saotypes.Proposal{
-			Owner: owner, Provider: w.acct1(op.Provider), GroupId: op.GroupId, Duration: op.Duration, Replica: op.Replica,
+			Owner: owner, Provider: w.acct1(pp), GroupId: op.GroupId, Duration: op.Duration, Replica: op.Replica,
 			Timeout: op.Timeout, Alias: op.Alias, DataId: op.DataId, CommitId: op.CommitId, Cid: cidS, Size_: op.Size,
 			Operation: op.Operation, ReadonlyDids: w.didsOf(op.RoDids), ReadwriteDids: w.didsOf(op.RwDids), PaymentDid: pay,
 		}
@@ -720,6 +746,13 @@ func (w *World) Exec(op *Op) (Result, M) {
 		}
 		out["msgProvider"] = w.Addr.ID(w.acct1(op.Provider))
 		out["faults"] = fo
+		ids := []int{}
+		for _, f := range fs {
+			seed := f.Provider + creator + f.CommitId + fmt.Sprint(f.ShardId)
+			ids = append(ids, w.Str.ID(uuid.NewV5(uuid.FromStringOrNil(nodekeeper.NS_URL), seed).String()))
+		}
+		out["newIds"] = ids
+		out["insuranceKey"] = w.Str.ID(nodetypes.InsuranceKey)
 		return w.runTx(func(ctx sdk.Context) (M, error) {
 			var err error
 			if op.K == "report" {
